@@ -126,6 +126,11 @@ Definition cho_ok (g : grammar) (nd : node) : bool := forallb (efree g EDEPTH) (
 Section Check.
 Variables g1 g2 : grammar.
 Variable ne : list nat.
+(* [weak]: also accept differences that change only the failure bookkeeping (parser.nm): sound for
+   ACCEPTANCE, not for error positions.  [alts]: oracle triples (o1, o2, o3) assumed to satisfy
+   "o3 matches like o1, and like o2 where o1 does not match" (explicit hypothesis of the weak theorem) *)
+Variable weak : bool.
+Variable alts : list (nat * nat * nat).
 Variable R : list (nat * nat * bool).
 
 Definition pin_any (i j : nat) : bool :=
@@ -179,6 +184,30 @@ Fixpoint seq_align (n : nat) (l1 l2 : list nat) : bool :=
     end
   end.
 
+(* node k is a plain, non-suppressed regex match: its oracle id *)
+Definition regex_oid (g : grammar) (k : nat) : option nat :=
+  match get_node g k with
+  | Some nd => match n_kind nd with
+               | KRegex o => if plain nd && negb (n_suppress nd) then Some o else None
+               | _ => None
+               end
+  | None => None
+  end.
+
+Definition in_alts (o1 o2 o3 : nat) : bool :=
+  existsb (fun t => match t with (a, b, c) => Nat.eqb a o1 && Nat.eqb b o2 && Nat.eqb c o3 end) alts.
+
+(* an ordered choice of two regex matches against one regex match (weak mode only) *)
+Definition choice_regex (a : node) (o3 : nat) : bool :=
+  match n_kids a with
+  | [k1; k2] =>
+    match regex_oid g1 k1, regex_oid g1 k2 with
+    | Some o1, Some o2 => in_alts o1 o2 o3 && existsb (Nat.eqb o1) ne && existsb (Nat.eqb o2) ne
+    | _, _ => false
+    end
+  | _ => false
+  end.
+
 Definition sep_ok (a b : node) : bool :=
   match n_sep a, n_sep b with
   | None, None => true
@@ -200,6 +229,7 @@ Definition struct_ok (a b : node) : bool :=
       end
     | _, _, _ => false
     end
+  | KChoice, KRegex o3 => weak && choice_regex a o3
   | KChoice, KChoice => zip_in true (n_kids a) (n_kids b) && cho_ok g1 a && cho_ok g2 b
   | KOpt, KOpt =>
     match n_kids a, n_kids b with
@@ -359,11 +389,19 @@ Definition reach_all (seeds : list (nat * nat * bool)) : list (nat * nat * bool)
 End Reach.
 
 (* the differing pairs; the top pair stands for a failed frame check *)
-Definition peg_equiv_diffs (ne : list nat) (seeds : list (nat * nat * bool)) (g1 g2 : grammar)
-  : list (nat * nat * bool) :=
+Definition peg_equiv_diffs_gen (ne : list nat) (weak : bool) (alts : list (nat * nat * nat))
+           (seeds : list (nat * nat * bool)) (g1 g2 : grammar) : list (nat * nat * bool) :=
   let R := reach_all g1 g2 seeds in
   (if frame_ok g1 g2 R then [] else [(g_top g1, g_top g2, false)])
-  ++ filter (fun p => negb (local_ok g1 g2 ne R p)) R.
+  ++ filter (fun p => negb (local_ok g1 g2 ne weak alts R p)) R.
+
+(* strong mode: equal acceptance AND equal error position *)
+Definition peg_equiv_diffs (ne : list nat) (seeds : list (nat * nat * bool)) (g1 g2 : grammar) :=
+  peg_equiv_diffs_gen ne false [] seeds g1 g2.
+(* weak mode: equal acceptance only *)
+Definition peg_equiv_diffs_acc (ne : list nat) (alts : list (nat * nat * nat))
+           (seeds : list (nat * nat * bool)) (g1 g2 : grammar) :=
+  peg_equiv_diffs_gen ne true alts seeds g1 g2.
 
 Definition peg_equiv_check (ne : list nat) (seeds : list (nat * nat * bool)) (g1 g2 : grammar) : bool :=
   match peg_equiv_diffs ne seeds g1 g2 with [] => true | _ => false end.
@@ -405,7 +443,8 @@ Definition sN (s : string) : list N := map N_of_ascii (list_ascii_of_string s).
 
 (* regular expressions that cannot match the empty string (oracle hypothesis of the soundness theorem, checked
    per run on every oracle table by tools/props/c24.py and by re.match('') in the translator) *)
-Definition textx_nonempty_patterns : list (list N) := map sN [ "\w+" ]%string.
+Definition textx_nonempty_patterns : list (list N) :=
+  map sN [ "\w+"; "'((\\')|[^'])*'"; """((\\"")|[^""])*""" ]%string.
 
 (* oracle ids of the shared table whose pattern text is in the list *)
 Definition ne_of (oracles : list (list N * nat)) (pats : list (list N)) : list nat :=
@@ -414,6 +453,26 @@ Definition ne_of (oracles : list (list N * nat)) (pats : list (list N)) : list n
      | [] => []
      | (p, _) :: t => if mem_str p pats then k :: go t (S k) else go t (S k)
      end) oracles 0.
+
+(* regex triples (p1, p2, p3): p3 matches at a position with the length p1 matches there, else with the length p2
+   matches there (oracle hypothesis of the acceptance theorem, checked per run with re on every text and position) *)
+Definition textx_alt_patterns : list (list N * list N * list N) :=
+  map (fun t => match t with (a, b, c) => (sN a, sN b, sN c) end)
+  [ ("'((\\')|[^'])*'", """((\\"")|[^""])*""", "(""(\\""|[^""])*"")|(\'(\\\'|[^\'])*\')") ]%string.
+
+Definition oid_of (oracles : list (list N * nat)) (p : list N) : option nat :=
+  (fix go (l : list (list N * nat)) (k : nat) : option nat :=
+     match l with
+     | [] => None
+     | (q, _) :: t => if str_eqb p q then Some k else go t (S k)
+     end) oracles 0.
+
+Definition alts_of (oracles : list (list N * nat)) (l : list (list N * list N * list N)) : list (nat * nat * nat) :=
+  flat_map (fun t => match t with (a, b, c) =>
+              match oid_of oracles a, oid_of oracles b, oid_of oracles c with
+              | Some x, Some y, Some z => [(x, y, z)]
+              | _, _, _ => []
+              end end) l.
 
 (* extra starting points of the traversal below differing pairs (untrusted: any R is sound) *)
 Definition textx_seeds : list (list N * list N) :=
@@ -443,5 +502,13 @@ Definition textx_accepted_diffs : list (list N * list N) :=
     (* NOTATION separator: (x sep)* x  vs  x+[sep]  (the two forms differ as nodes - after `a,` one fails, the
        other succeeds on `a` - and agree only in their context; x (sep x)* vs x+[sep] is decided by the checker) *)
     ("rrel_sequence", "RRELSequence.0"); ("rrel_path.0", "RRELPath.0");
-    (* NOTATION terminals: two-alternative string_value vs the STRING regex; one regex /.../ vs '/' regex '/' *)
-    ("string_value", "STRING"); ("str_match", "STRING"); ("re_match", "ReMatch") ]%string.
+    (* NOTATION+FINDING: one regex /.../ vs '/' regex '/' (known finding regex-backslash-end) *)
+    ("re_match", "ReMatch");
+    (* NOTATION terminals: two-alternative string_value vs the STRING regex: decided in weak (acceptance) mode
+       under the oracle hypothesis textx_alt_patterns; still differing in strong (error position) mode *)
+    ("string_value", "STRING"); ("str_match", "STRING") ]%string.
+
+(* accepted pairs of the acceptance-only (weak) check *)
+Definition textx_accepted_diffs_acc : list (list N * list N) :=
+  filter (fun p => negb (lp_eqb p (sN "string_value", sN "STRING")) && negb (lp_eqb p (sN "str_match", sN "STRING")))%string
+         textx_accepted_diffs.
